@@ -164,6 +164,71 @@ def ob_rewind_no_stall(nw: int, b0: bool, b1: bool, b2: bool, q: int, bb: bool, 
     return True
 
 
+class CJob(_Event):
+    n: int
+
+
+class _CancelInside(Workflow):
+    """`work` (one worker) lets the CancelledError of something it awaited escape for job 1 (an inner task that was cancelled, a cancelled
+    future handed in from elsewhere); job 2 is queued behind it"""
+
+    @step
+    async def begin(self, ctx: Context, ev: StartEvent) -> CJob | None:
+        ctx.send_event(CJob(n=1))
+        ctx.send_event(CJob(n=2))
+        return None
+
+    @step(num_workers=1)
+    async def work(self, ctx: Context, ev: CJob) -> StopEvent | None:
+        import asyncio
+
+        self.started.append(ev.n)
+        if ev.n == 1 and self.how >= 0:
+            fut = asyncio.get_running_loop().create_future()
+            if self.how == 0:
+                fut.cancel()                       # already cancelled when awaited
+            else:
+                asyncio.get_running_loop().call_later(self.how, fut.cancel)   # cancelled by somebody else while the step waits on it
+            await fut
+        return StopEvent(result=ev.n)
+
+
+@obligation(quick=120, thorough=300,
+            what="whole run, real BasicRuntime: a step invocation that lets a CancelledError of something it awaited escape (nobody cancelled the "
+                 "run or the worker) does not hold its slot for ever: the run goes on — the queued event runs or the run ends with a failure — "
+                 "instead of sitting with queued work next to a worker that no longer exists",
+            bounds={"when the awaited future is cancelled": "before the await / 1..2 s into it / never (control)", "queue behind it": 1})
+def ob_escaped_cancellation_frees_the_slot(how: int) -> bool:
+    """
+    pre: -1 <= how <= 2
+    post: _
+    """
+    import asyncio
+
+    import workflows.plugins.basic as basic_mod
+    from vlib.miniloop import MiniLoop
+
+    how = conc(how + 1, 0, 3) - 1
+    out: dict = {}
+
+    async def main():
+        wf = _CancelInside(timeout=None, runtime=basic_mod.BasicRuntime())
+        wf.how, wf.started = how, []
+        h = wf.run(run_id="r1")
+        try:
+            out["end"] = ("result", await asyncio.wait_for(h, timeout=30))
+        except asyncio.TimeoutError:
+            out["end"] = ("HUNG", list(wf.started))
+        except Exception as e:  # noqa: BLE001
+            out["end"] = ("failed", type(e).__name__)
+
+    MiniLoop().run_until_complete(main())
+    kind = out.get("end", ("none",))[0]
+    if how < 0:
+        return out.get("end") == ("result", 1)
+    return kind in ("result", "failed")       # anything but a run that sits there for ever
+
+
 class _Adapter(InternalRunAdapter):
     def __init__(self, now: int = 0) -> None:
         self.now = now
